@@ -59,82 +59,112 @@ theorem TxStep.trans' {a b c : State} (h1 : TxStep a b) (h2 : TxStep b c) : TxSt
 theorem TxStep.of_eq {s s' : State} (hq : s'.txQueue = s.txQueue) (hl : s'.log = s.log) : TxStep s s' :=
   ⟨by rw [hq]; exact List.suffix_refl _, by rw [hl]; exact FailErr.refl _⟩
 
-theorem TxStep.stopTrue (s : State) : TxStep s (s.stopSending true) := by
+theorem TxStep.stopTrue {s s' : State} (hq : s'.txQueue = s.txQueue) (hl : s'.log = s.log) :
+    TxStep s (s'.stopSending true) := by
   unfold stopSending
-  cases h : s.active with
-  | none => exact TxStep.of_eq rfl rfl
-  | some r => exact ⟨List.suffix_refl _, FailErr.doneTrue _ _⟩
+  cases h : s'.active with
+  | none => exact TxStep.of_eq hq hl
+  | some r => exact ⟨by rw [← hq]; exact List.suffix_refl _, by rw [← hl]; exact FailErr.doneTrue _ _⟩
 
-theorem TxStep.error (s : State) (e : Err) : TxStep s (s.error e) :=
-  ⟨List.suffix_refl _, FailErr.err _ _ _⟩
+theorem TxStep.error {s s' : State} (hq : s'.txQueue = s.txQueue) (hl : s'.log = s.log) (e : Err) :
+    TxStep s (s'.error e) :=
+  ⟨by rw [← hq]; exact List.suffix_refl _, by rw [← hl]; exact FailErr.err _ _ _⟩
 
-theorem TxStep.raise (s : State) (e : PyExc) : TxStep s (s.raise e) := TxStep.of_eq rfl rfl
-
-theorem TxStep.errStop (s : State) (e : Err) (b : Bool) : TxStep s ((s.error e).stopSending b) := by
+theorem TxStep.errStop {s s' : State} (hq : s'.txQueue = s.txQueue) (hl : s'.log = s.log) (e : Err) (b : Bool) :
+    TxStep s ((s'.error e).stopSending b) := by
   unfold stopSending
-  cases h : (s.error e).active with
-  | none => exact ⟨List.suffix_refl _, FailErr.err _ _ _⟩
-  | some r => exact ⟨List.suffix_refl _, FailErr.doneErr _ _ _ _ _⟩
+  cases h : (s'.error e).active with
+  | none => exact ⟨by rw [← hq]; exact List.suffix_refl _, by rw [← hl]; exact FailErr.err _ _ _⟩
+  | some r => exact ⟨by rw [← hq]; exact List.suffix_refl _, by rw [← hl]; exact FailErr.doneErr _ _ _ _ _⟩
 
-theorem TxStep.stopErr (s : State) (e : Err) (b : Bool) : TxStep s ((s.stopSending b).error e) := by
+theorem TxStep.stopErr {s s' : State} (hq : s'.txQueue = s.txQueue) (hl : s'.log = s.log) (e : Err) (b : Bool) :
+    TxStep s ((s'.stopSending b).error e) := by
   unfold stopSending
-  cases h : s.active with
-  | none => exact ⟨List.suffix_refl _, FailErr.err _ _ _⟩
-  | some r => exact ⟨List.suffix_refl _, FailErr.errDone _ _ _ _ _⟩
+  cases h : s'.active with
+  | none => exact ⟨by rw [← hq]; exact List.suffix_refl _, by rw [← hl]; exact FailErr.err _ _ _⟩
+  | some r => exact ⟨by rw [← hq]; exact List.suffix_refl _, by rw [← hl]; exact FailErr.errDone _ _ _ _ _⟩
+
+/-- closes a leaf goal -/
+macro "txstep_leaf" : tactic => `(tactic| first
+  | exact TxStep.of_eq (by rfl) (by rfl)
+  | exact TxStep.stopTrue (by rfl) (by rfl)
+  | exact TxStep.error (by rfl) (by rfl) _
+  | exact TxStep.errStop (by rfl) (by rfl) _ _
+  | exact TxStep.stopErr (by rfl) (by rfl) _ _)
+
+macro "txstep_split" : tactic => `(tactic| (repeat' (first | split | (dsimp only; done) | dsimp only)))
+
+theorem TxStep.cfTail (s : State) (r' : Req) (rbs : Nat) (res : Option Bytes) :
+    TxStep s (C12.cfTail s r' rbs res).1 := by
+  unfold C12.cfTail
+  cases res with
+  | none => txstep_leaf
+  | some payload =>
+    dsimp only
+    by_cases hp : payload.length > 0
+    · simp only [hp, if_true]
+      cases hm : makeTxMsg s.cfg s.addr (s.addr.tx.txId .physical) (s.addr.tx.txPrefix ++ [u8 (0x20 + s.txSeq)] ++ payload) with
+      | none => simp only [if_true]; txstep_leaf
+      | some msg =>
+        simp only [Bool.false_eq_true, if_false]
+        repeat' split
+        all_goals txstep_leaf
+    · simp only [hp, if_false, Bool.false_eq_true]
+      repeat' split
+      all_goals txstep_leaf
+
+theorem TxStep.ite (c : Prop) [Decidable c] {s a b : State} (ha : TxStep s a) (hb : TxStep s b) :
+    TxStep s (if c then a else b) := by split <;> assumption
 
 theorem TxStep.handleFc (s : State) (f : FcFrame) : TxStep s (s.handleFc f) := by
   unfold State.handleFc
   dsimp only
   repeat' split
-  all_goals first
-    | exact TxStep.error _ _
-    | exact TxStep.errStop _ _ _
-    | exact TxStep.of_eq rfl rfl
+  all_goals txstep_leaf
 
 theorem TxStep.txFc (s : State) : TxStep s (C12.txFc s).1 := by
   unfold C12.txFc
-  simp only []
+  dsimp only
   split
   · split
-    · exact TxStep.trans' (TxStep.of_eq rfl rfl : TxStep s { s with lastFc := none }) (TxStep.stopErr _ _ _)
+    · txstep_leaf
     · exact TxStep.trans' (TxStep.of_eq rfl rfl : TxStep s { s with lastFc := none }) (TxStep.handleFc _ _)
-  · exact TxStep.of_eq rfl rfl
+  · txstep_leaf
 
 theorem TxStep.txTimeout (s : State) : TxStep s (C12.txTimeout s) := by
   unfold C12.txTimeout
-  split
-  · exact TxStep.errStop _ _ _
-  · exact TxStep.of_eq rfl rfl
+  exact TxStep.ite _ (TxStep.errStop rfl rfl _ _) (TxStep.refl _)
 
 theorem TxStep.txDepl (s : State) : TxStep s (C12.txDepl s) := by
   unfold C12.txDepl
-  split
-  · exact TxStep.stopTrue _
-  · exact TxStep.of_eq rfl rfl
+  exact TxStep.ite _ (TxStep.stopTrue rfl rfl) (TxStep.refl _)
 
 theorem TxStep.consumeActive (s : State) (r : Req) (n : Nat) (e : Bool) : TxStep s (s.consumeActive r n e).1 := by
   unfold State.consumeActive
-  simp only []
+  dsimp only
   split
   · exact ⟨List.suffix_refl _, FailErr.pull _ _ _⟩
-  · exact TxStep.of_eq rfl rfl
+  · txstep_leaf
 
 theorem TxStep.sfTail (s : State) (r : Req) (b : Bool) (allowed : Nat) (res : Option Bytes) :
     TxStep s (C12.sfTail s r b allowed res).1 := by
   unfold C12.sfTail
-  repeat' split
-  all_goals first
-    | exact TxStep.errStop _ _ _
-    | exact TxStep.stopTrue _
-    | exact TxStep.of_eq rfl rfl
+  cases res with
+  | none => txstep_leaf
+  | some payload =>
+    dsimp only
+    repeat' split
+    all_goals txstep_leaf
 
 theorem TxStep.ffTail (s : State) (total : Nat) (allowed : Nat) (res : Option Bytes) :
     TxStep s (C12.ffTail s total allowed res).1 := by
   unfold C12.ffTail
-  repeat' split
-  all_goals first
-    | exact TxStep.errStop _ _ _
-    | exact TxStep.of_eq rfl rfl
+  cases res with
+  | none => txstep_leaf
+  | some payload =>
+    dsimp only
+    repeat' split
+    all_goals txstep_leaf
 
 theorem TxStep.startTx (s : State) (r : Req) (allowed : Nat) : TxStep s (s.startTx r allowed).1 := by
   rw [C12.startTx_eq]
@@ -160,72 +190,46 @@ theorem TxStep.readTxQueue (allowed : Nat) (q : List Req) : ∀ s : State, q <:+
           TxStep s { s with txQueue := rest, active := none, log := .done r.id true :: s.log })
         (ih _ (List.suffix_refl _))
 
-theorem TxStep.cfTail (s : State) (r' : Req) (rbs : Nat) (res : Option Bytes) :
-    TxStep s (C12.cfTail s r' rbs res).1 := by
-  unfold C12.cfTail
-  cases res with
-  | none => exact TxStep.of_eq rfl rfl
-  | some payload =>
-    simp only []
-    have key : ∀ (x : State × Option CanMsg × Bool), TxStep s x.1 →
-        TxStep s (if x.2.2 = true then (x.1, (none : Option CanMsg), false) else
-          if r'.depleted = true then
-            if r'.remaining > 0 then ((x.1.error .BadGenerator).stopSending false, x.2.1, false)
-            else (x.1.stopSending true, x.2.1, false)
-          else if (rbs ≠ 0 && decide (x.1.txBlockCnt ≥ rbs)) = true then
-            (({ x.1 with txState := .waitFc } : State).startRxFcTimer, x.2.1, true)
-          else (x.1, x.2.1, false)).1 := by
-      intro x hx
-      repeat' split
-      all_goals first
-        | exact hx
-        | exact hx.trans' (TxStep.errStop _ _ _)
-        | exact hx.trans' (TxStep.stopTrue _)
-    split
-    · split
-      · exact key (_, none, true) (TxStep.of_eq rfl rfl)
-      · exact key (_, _, false) (TxStep.of_eq rfl rfl)
-    · exact key (_, none, false) (TxStep.of_eq rfl rfl)
-
 theorem TxStep.transmitCf (s : State) (allowed : Nat) : TxStep s (s.transmitCf allowed).1 := by
   rw [C12.transmitCf_eq]
   split
-  · exact TxStep.of_eq rfl rfl
-  · exact TxStep.of_eq rfl rfl
+  · txstep_leaf
+  · txstep_leaf
   · split
     · split
       · exact (TxStep.consumeActive s _ _ _).trans' (TxStep.cfTail _ _ _ _)
-      · exact TxStep.of_eq rfl rfl
-    · exact TxStep.of_eq rfl rfl
+      · txstep_leaf
+    · txstep_leaf
 
 theorem TxStep.txFsm (s : State) (allowed : Nat) : TxStep s (C12.txFsm s allowed).1 := by
   unfold C12.txFsm
-  split
-  · exact TxStep.readTxQueue allowed s.txQueue s (List.suffix_refl _)
-  · split
-    · split
-      · split
-        · exact TxStep.of_eq rfl rfl
-        · exact TxStep.trans' (TxStep.of_eq rfl rfl : TxStep s { s with standby := none }) (TxStep.stopTrue _)
-      · exact TxStep.of_eq rfl rfl
-    · exact TxStep.of_eq rfl rfl
-  · split
-    · split
-      · split
-        · exact TxStep.of_eq rfl rfl
-        · exact TxStep.trans' (TxStep.of_eq rfl rfl : TxStep s { s with standby := none }) (TxStep.stopTrue _)
-      · exact TxStep.of_eq rfl rfl
-    · exact TxStep.of_eq rfl rfl
-  · exact TxStep.of_eq rfl rfl
-  · exact TxStep.transmitCf _ _
+  cases hst : s.txState with
+  | idle => exact TxStep.readTxQueue allowed s.txQueue s (List.suffix_refl _)
+  | waitFc => txstep_leaf
+  | transmitCf => exact TxStep.transmitCf _ _
+  | sfStandby =>
+    dsimp only
+    cases hsb : s.standby with
+    | none => txstep_leaf
+    | some msg =>
+      dsimp only
+      repeat' split
+      all_goals txstep_leaf
+  | ffStandby =>
+    dsimp only
+    cases hsb : s.standby with
+    | none => txstep_leaf
+    | some msg =>
+      dsimp only
+      repeat' split
+      all_goals txstep_leaf
 
 theorem TxStep.txFinish (x : State × Option CanMsg × Bool) : TxStep x.1 (C12.txFinish x).1 := by
   obtain ⟨s, out, imm⟩ := x
   unfold C12.txFinish
-  simp only []
-  split
-  · exact TxStep.of_eq rfl rfl
-  · split <;> exact TxStep.of_eq rfl rfl
+  dsimp only
+  repeat' split
+  all_goals txstep_leaf
 
 theorem TxStep.txPend (s : State) : TxStep s (C12.txPend s).1 :=
   TxStep.of_eq (C12.txPend_fields s).1 (C12.txPend_fields s).2.2.2.2.1
@@ -246,7 +250,7 @@ theorem TxStep.processTx (s : State) : TxStep s s.processTx.1 := by
       rw [hf] at a2
       have a3 := TxStep.txTimeout s2
       split
-      · exact (a1.trans' a2).trans' a3
+      · exact (a1.trans' a2).trans' (a3.trans' (TxStep.of_eq rfl rfl))
       · exact ((((a1.trans' a2).trans' a3).trans' (TxStep.txDepl _)).trans' (TxStep.txFsm _ _)).trans'
           (TxStep.txFinish _)
 
